@@ -1,1 +1,756 @@
-//! (reference model; owner fills this in)
+//! Reference model for macro definition and macro call (property C02, also used by C07).
+//!
+//! Own transcription of *TeX: The Program*
+//!   §473-§477  scan_toks(macro_def=true, xpand=false): parameter text and replacement text of \def
+//!   §389-§399  macro_call: prefix matching, undelimited / delimited parameters, the brace
+//!              stripping rule of §393, `#{`, substitution of `#n`, `##`.
+//! on a small token type of its own. Nothing here calls code from /repo.
+//!
+//! A second, declarative formulation of argument binding (`declarative_call`) follows the wording
+//! of the property ("shortest brace-balanced run before the first depth-0 occurrence of the
+//! delimiter; one pair of outer braces is removed only when the whole argument is a single
+//! group"). The monitor runs both; a disagreement between the two is INCONCLUSIVE, never a verdict.
+
+use std::collections::HashMap;
+
+/// A token. Category codes are the fixed plain ones of the generated sources, so a character
+/// token is identified by its character alone, exactly like TeX's `cur_tok = 256*cmd + chr` for
+/// a fixed catcode table.
+#[derive(Clone, Debug, PartialEq, Eq, Hash, PartialOrd, Ord)]
+pub enum Tok {
+    /// control sequence `\name` (control word: letters only)
+    Cs(String),
+    /// `{` (catcode 1)
+    Begin,
+    /// `}` (catcode 2)
+    End,
+    /// `#` (catcode 6)
+    Param,
+    /// ` ` (catcode 10)
+    Space,
+    /// letter (11) or other (12) character
+    Ch(char),
+    /// active character (catcode 13), only `~` under the fixed catcodes
+    Active(char),
+}
+
+impl Tok {
+    pub fn cs(name: &str) -> Tok {
+        Tok::Cs(name.to_string())
+    }
+}
+
+/// Unambiguous text rendering: `\name ` for control sequences, the character otherwise. This is
+/// the same convention the harness uses for the tokens it observes in the real VM.
+pub fn render(toks: &[Tok]) -> String {
+    let mut s = String::new();
+    for t in toks {
+        match t {
+            Tok::Cs(n) => {
+                s.push('\\');
+                s.push_str(n);
+                s.push(' ');
+            }
+            Tok::Begin => s.push('{'),
+            Tok::End => s.push('}'),
+            Tok::Param => s.push('#'),
+            Tok::Space => s.push(' '),
+            Tok::Ch(c) | Tok::Active(c) => s.push(*c),
+        }
+    }
+    s
+}
+
+/// TeX source text that the lexer of §343-§355 turns back into exactly `toks`, or `None` when no
+/// such text exists under the conventions used here (a space token cannot follow a control word
+/// or another space token, nor start a line: TeX's lexer would drop it - states S and N).
+pub fn to_source(toks: &[Tok]) -> Option<String> {
+    let mut prev_skips_space = true; // state N at the beginning of the line
+    for t in toks {
+        match t {
+            Tok::Space => {
+                if prev_skips_space {
+                    return None;
+                }
+                prev_skips_space = true;
+            }
+            Tok::Cs(n) => {
+                if n.is_empty() || !n.chars().all(|c| c.is_ascii_alphabetic()) {
+                    return None;
+                }
+                prev_skips_space = true;
+            }
+            Tok::Ch(c) => {
+                if matches!(c, '\\' | '{' | '}' | '#' | ' ' | '%' | '^' | '~' | '$' | '&' | '_')
+                    || c.is_control()
+                {
+                    return None;
+                }
+                prev_skips_space = false;
+            }
+            Tok::Active(c) => {
+                if *c != '~' {
+                    return None;
+                }
+                prev_skips_space = false;
+            }
+            _ => prev_skips_space = false,
+        }
+    }
+    Some(render(toks))
+}
+
+/// Remove the space tokens that TeX's lexer could not have produced at these positions
+/// (after a control word, after another space, at the start). `after_cs` tells whether the
+/// list will be placed directly after a control word.
+pub fn drop_unlexable_spaces(toks: &[Tok], after_cs: bool) -> Vec<Tok> {
+    let mut out: Vec<Tok> = Vec::with_capacity(toks.len());
+    let mut skip = after_cs;
+    for t in toks {
+        match t {
+            Tok::Space => {
+                if !skip {
+                    out.push(Tok::Space);
+                }
+                skip = true;
+            }
+            Tok::Cs(_) => {
+                out.push(t.clone());
+                skip = true;
+            }
+            _ => {
+                out.push(t.clone());
+                skip = false;
+            }
+        }
+    }
+    out
+}
+
+/// A miniature of TeX's lexer (§343-§355) for ONE line of source under the fixed catcodes
+/// `\`=0 `{`=1 `}`=2 `#`=6 space=10 letters=11 `%`=14 everything else=12. No `^^` notation.
+/// The end-of-line character is not appended (calibration strings are single lines whose
+/// trailing end-of-line space is irrelevant).
+pub fn lex_line(src: &str) -> Vec<Tok> {
+    #[derive(PartialEq)]
+    enum St {
+        N,
+        M,
+        S,
+    }
+    let cs: Vec<char> = src.chars().collect();
+    let mut out = vec![];
+    let mut st = St::N;
+    let mut i = 0;
+    while i < cs.len() {
+        let c = cs[i];
+        i += 1;
+        match c {
+            '\\' => {
+                if i >= cs.len() {
+                    out.push(Tok::Cs(String::new()));
+                    break;
+                }
+                if cs[i].is_ascii_alphabetic() {
+                    let mut n = String::new();
+                    while i < cs.len() && cs[i].is_ascii_alphabetic() {
+                        n.push(cs[i]);
+                        i += 1;
+                    }
+                    out.push(Tok::Cs(n));
+                    st = St::S;
+                } else {
+                    let sym = cs[i];
+                    i += 1;
+                    out.push(Tok::Cs(sym.to_string()));
+                    st = if sym == ' ' { St::S } else { St::M };
+                }
+            }
+            '{' => {
+                out.push(Tok::Begin);
+                st = St::M;
+            }
+            '}' => {
+                out.push(Tok::End);
+                st = St::M;
+            }
+            '#' => {
+                out.push(Tok::Param);
+                st = St::M;
+            }
+            ' ' => {
+                if st == St::M {
+                    out.push(Tok::Space);
+                    st = St::S;
+                }
+            }
+            '%' => break,
+            '~' => {
+                out.push(Tok::Active('~'));
+                st = St::M;
+            }
+            c => {
+                out.push(Tok::Ch(c));
+                st = St::M;
+            }
+        }
+    }
+    out
+}
+
+/// One element of a stored parameter text (TeX: the part of the macro's token list before
+/// `end_match`).
+#[derive(Clone, Debug, PartialEq, Eq, Hash)]
+pub enum Pat {
+    /// an ordinary token that must be matched (prefix or delimiter)
+    Lit(Tok),
+    /// `match` token: parameter `#n` starts here
+    Match,
+    /// `end_match`
+    EndMatch,
+}
+
+/// One element of a stored replacement text.
+#[derive(Clone, Debug, PartialEq, Eq, Hash)]
+pub enum Body {
+    Tok(Tok),
+    /// `out_param` n (1-based)
+    Out(usize),
+}
+
+#[derive(Clone, Debug, PartialEq, Eq, Hash)]
+pub struct MacroDef {
+    /// parameter text, always ending with `Pat::EndMatch`
+    pub pattern: Vec<Pat>,
+    pub body: Vec<Body>,
+    pub nparams: usize,
+}
+
+#[derive(Clone, Debug, PartialEq, Eq)]
+pub enum DefError {
+    EndOfInput,
+    /// "You already have nine parameters" (§476)
+    TooManyParameters,
+    /// "Parameters must be numbered consecutively" (§476)
+    NotConsecutive,
+    /// "Illegal parameter number in definition" (§479)
+    IllegalParameterNumber,
+    /// "Missing { inserted" (§475)
+    MissingLeftBrace,
+}
+
+/// §473-§477: `toks` starts right after the control sequence being defined:
+/// `<parameter text>{<replacement text>}...`. Returns the definition and the number of tokens
+/// consumed (including the closing brace).
+pub fn parse_def(toks: &[Tok]) -> Result<(MacroDef, usize), DefError> {
+    let mut i = 0;
+    let mut pattern: Vec<Pat> = vec![];
+    let mut t = 0usize; // number of parameters so far (TeX: t = zero_token + that)
+    let mut hash_brace = false;
+    // §474 Scan and build the parameter part of the macro definition
+    loop {
+        let tok = toks.get(i).ok_or(DefError::EndOfInput)?;
+        i += 1;
+        match tok {
+            Tok::Begin => {
+                // done1
+                pattern.push(Pat::EndMatch);
+                break;
+            }
+            Tok::End => return Err(DefError::MissingLeftBrace),
+            Tok::Param => {
+                // §476 If the next character is a parameter number, make cur_tok a match token;
+                // but if it is a left brace, store `{` and `end_match`, set hash_brace, goto done
+                let nxt = toks.get(i).ok_or(DefError::EndOfInput)?;
+                i += 1;
+                if *nxt == Tok::Begin {
+                    hash_brace = true;
+                    pattern.push(Pat::Lit(Tok::Begin));
+                    pattern.push(Pat::EndMatch);
+                    break;
+                }
+                if t == 9 {
+                    return Err(DefError::TooManyParameters);
+                }
+                t += 1;
+                let expected = Tok::Ch(char::from(b'0' + t as u8));
+                if *nxt != expected {
+                    return Err(DefError::NotConsecutive);
+                }
+                pattern.push(Pat::Match);
+            }
+            other => pattern.push(Pat::Lit(other.clone())),
+        }
+    }
+    // §477 Scan and build the body of the token list; unbalance = 1
+    let mut body: Vec<Body> = vec![];
+    let mut unbalance = 1usize;
+    loop {
+        let tok = toks.get(i).ok_or(DefError::EndOfInput)?;
+        i += 1;
+        match tok {
+            Tok::Begin => {
+                unbalance += 1;
+                body.push(Body::Tok(Tok::Begin));
+            }
+            Tok::End => {
+                unbalance -= 1;
+                if unbalance == 0 {
+                    break;
+                }
+                body.push(Body::Tok(Tok::End));
+            }
+            Tok::Param => {
+                // §479 Look for parameter number or ##
+                let nxt = toks.get(i).ok_or(DefError::EndOfInput)?;
+                i += 1;
+                match nxt {
+                    Tok::Param => body.push(Body::Tok(Tok::Param)),
+                    Tok::Ch(c) if c.is_ascii_digit() && *c != '0' => {
+                        let n = (*c as u8 - b'0') as usize;
+                        if n > t {
+                            return Err(DefError::IllegalParameterNumber);
+                        }
+                        body.push(Body::Out(n));
+                    }
+                    _ => return Err(DefError::IllegalParameterNumber),
+                }
+            }
+            other => body.push(Body::Tok(other.clone())),
+        }
+    }
+    // found: if hash_brace<>0 then store_new_token(hash_brace)
+    if hash_brace {
+        body.push(Body::Tok(Tok::Begin));
+    }
+    Ok((
+        MacroDef {
+            pattern,
+            body,
+            nparams: t,
+        },
+        i,
+    ))
+}
+
+#[derive(Clone, Debug, PartialEq, Eq)]
+pub enum CallError {
+    /// "Use of \x doesn't match its definition" (§398): at this stream offset
+    PrefixMismatch(usize),
+    /// the stream ended while an argument or the prefix was being scanned
+    EndOfInput,
+    /// "Argument of \x has an extra }" (§395)
+    ExtraRightBrace,
+    /// `\par` inside an argument of a non-\long macro (§396)
+    Par,
+}
+
+/// Which rule decides whether a pair of outer braces is removed from an argument.
+#[derive(Clone, Copy, Debug, PartialEq, Eq)]
+pub enum TrimRule {
+    /// TeX §393: the argument consists of exactly one group (`m = 1`)
+    Tex,
+    /// deviation model for finding C02-trim-first-last: a *delimited* argument of length >= 2
+    /// loses its first and last token whenever these are `{` and `}`; undelimited arguments
+    /// behave as in TeX
+    FirstLastOfDelimited,
+}
+
+#[derive(Clone, Debug, PartialEq, Eq)]
+pub struct Call {
+    pub args: Vec<Vec<Tok>>,
+    pub expansion: Vec<Tok>,
+    /// how many tokens of the stream the call consumed
+    pub consumed: usize,
+}
+
+fn is_par(t: &Tok) -> bool {
+    matches!(t, Tok::Cs(n) if n == "par")
+}
+
+/// §389-§399 macro_call. `stream` starts right after the macro's own token.
+pub fn macro_call(def: &MacroDef, stream: &[Tok], trim: TrimRule) -> Result<Call, CallError> {
+    let pat = &def.pattern;
+    let mut pos = 0usize; // next stream token (TeX: get_token)
+    let mut r = 0usize; // TeX: r, a pointer into the parameter text
+    let mut args: Vec<Vec<Tok>> = vec![];
+    // §389: if info(r) <> end_match_token then <Scan the parameters ...>
+    if pat[r] != Pat::EndMatch {
+        // §391
+        loop {
+            // s = null  <=> prefix matching; otherwise s = start of this parameter's delimiter
+            let s: Option<usize>;
+            let mut p: Vec<Tok> = vec![]; // the parameter being built (temp_head list)
+            let mut m = 0usize;
+            let mut rbrace_is_last = false; // info(p) < right_brace_limit at tidy-up time
+            if pat[r] == Pat::Match {
+                s = Some(r + 1);
+                r += 1;
+            } else {
+                s = None;
+            }
+            // §392 Scan a parameter until its delimiter string has been found; or, if s=null,
+            // simply scan the delimiter string
+            'continue_: loop {
+                let cur = stream.get(pos).ok_or(CallError::EndOfInput)?.clone();
+                pos += 1;
+                if let Pat::Lit(l) = &pat[r] {
+                    if *l == cur {
+                        // §394 Advance r; goto found if the parameter delimiter has been fully
+                        // matched, otherwise goto continue
+                        r += 1;
+                        if matches!(pat[r], Pat::Match | Pat::EndMatch) {
+                            break 'continue_; // found
+                        }
+                        continue 'continue_;
+                    }
+                }
+                // §397 Contribute the recently matched tokens to the current parameter, and goto
+                // continue if a partial match is still in effect; but abort if s=null
+                if s != Some(r) {
+                    match s {
+                        None => return Err(CallError::PrefixMismatch(pos - 1)),
+                        Some(s0) => {
+                            let mut t = s0;
+                            loop {
+                                if let Pat::Lit(l) = &pat[t] {
+                                    p.push(l.clone());
+                                    rbrace_is_last = false;
+                                }
+                                m += 1;
+                                let mut u = t + 1;
+                                let mut v = s0;
+                                let mut resumed = false;
+                                loop {
+                                    if u == r {
+                                        if Pat::Lit(cur.clone()) != pat[v] {
+                                            break; // done
+                                        } else {
+                                            r = v + 1;
+                                            resumed = true;
+                                            break;
+                                        }
+                                    }
+                                    if pat[u] != pat[v] {
+                                        break; // done
+                                    }
+                                    u += 1;
+                                    v += 1;
+                                }
+                                if resumed {
+                                    continue 'continue_;
+                                }
+                                t += 1;
+                                if t == r {
+                                    break;
+                                }
+                            }
+                            r = s0; // at this point, no tokens are recently matched
+                        }
+                    }
+                }
+                // §392 continued
+                if is_par(&cur) {
+                    return Err(CallError::Par); // §396 (non-\long macros only are modelled)
+                }
+                match cur {
+                    Tok::Begin => {
+                        // §399 Contribute an entire group to the current parameter
+                        let mut unbalance = 1usize;
+                        let mut c = cur.clone();
+                        loop {
+                            p.push(c);
+                            c = stream.get(pos).ok_or(CallError::EndOfInput)?.clone();
+                            pos += 1;
+                            if is_par(&c) {
+                                return Err(CallError::Par);
+                            }
+                            match c {
+                                Tok::Begin => unbalance += 1,
+                                Tok::End => {
+                                    unbalance -= 1;
+                                    if unbalance == 0 {
+                                        break;
+                                    }
+                                }
+                                _ => {}
+                            }
+                        }
+                        p.push(c); // rbrace_ptr := p; store_new_token(cur_tok)
+                        rbrace_is_last = true;
+                    }
+                    Tok::End => {
+                        // §395 Report an extra right brace and goto continue
+                        return Err(CallError::ExtraRightBrace);
+                    }
+                    other => {
+                        // §393 Store the current token, but goto continue if it is a blank space
+                        // that would become an undelimited parameter
+                        if other == Tok::Space && matches!(pat[r], Pat::Match | Pat::EndMatch) {
+                            continue 'continue_;
+                        }
+                        p.push(other);
+                        rbrace_is_last = false;
+                    }
+                }
+                m += 1;
+                if let Pat::Lit(_) = pat[r] {
+                    continue 'continue_;
+                }
+                break 'continue_; // found (undelimited parameter complete)
+            }
+            // found: if s<>null then <Tidy up the parameter just scanned, and tuck it away>
+            if let Some(s0) = s {
+                let delimited = matches!(pat[s0], Pat::Lit(_));
+                let strip = match trim {
+                    // §393: (m=1) and (info(p)<right_brace_limit) and (p<>temp_head)
+                    TrimRule::Tex => m == 1 && rbrace_is_last && !p.is_empty(),
+                    TrimRule::FirstLastOfDelimited => {
+                        if delimited {
+                            p.len() >= 2 && p[0] == Tok::Begin && p[p.len() - 1] == Tok::End
+                        } else {
+                            m == 1 && rbrace_is_last && !p.is_empty()
+                        }
+                    }
+                };
+                if strip {
+                    p.pop();
+                    p.remove(0);
+                }
+                args.push(p);
+            }
+            if pat[r] == Pat::EndMatch {
+                break;
+            }
+        }
+    }
+    // §390 / §358: the replacement text with parameters substituted
+    let mut expansion = vec![];
+    for b in &def.body {
+        match b {
+            Body::Tok(t) => expansion.push(t.clone()),
+            Body::Out(n) => expansion.extend(args[*n - 1].iter().cloned()),
+        }
+    }
+    Ok(Call {
+        args,
+        expansion,
+        consumed: pos,
+    })
+}
+
+/// Index just past the group that starts at `toks[i]` (which must be `{`), or None if it does
+/// not close.
+fn group_end(toks: &[Tok], i: usize) -> Option<usize> {
+    let mut depth = 0usize;
+    let mut j = i;
+    while j < toks.len() {
+        match toks[j] {
+            Tok::Begin => depth += 1,
+            Tok::End => {
+                depth -= 1;
+                if depth == 0 {
+                    return Some(j + 1);
+                }
+            }
+            _ => {}
+        }
+        j += 1;
+    }
+    None
+}
+
+/// Declarative formulation of argument binding, straight from the wording of the property.
+/// Defined only on calls inside the quantifier (balanced arguments, no `\par`); anything else is
+/// an error value just as in `macro_call`.
+pub fn declarative_call(def: &MacroDef, stream: &[Tok]) -> Result<Call, CallError> {
+    declarative_call_spans(def, stream).map(|x| x.0)
+}
+
+/// Same, also returning for every parameter the half-open range of stream positions that was
+/// bound to it *before* brace stripping (for an undelimited parameter: the token or the whole
+/// group, after the skipped spaces).
+pub fn declarative_call_spans(
+    def: &MacroDef,
+    stream: &[Tok],
+) -> Result<(Call, Vec<(usize, usize)>), CallError> {
+    // split the pattern into prefix and (parameter, delimiter) pairs
+    let mut prefix: Vec<Tok> = vec![];
+    let mut delims: Vec<Vec<Tok>> = vec![];
+    for p in &def.pattern {
+        match p {
+            Pat::Lit(t) => match delims.last_mut() {
+                None => prefix.push(t.clone()),
+                Some(d) => d.push(t.clone()),
+            },
+            Pat::Match => delims.push(vec![]),
+            Pat::EndMatch => {}
+        }
+    }
+    let mut pos = 0usize;
+    for (k, t) in prefix.iter().enumerate() {
+        match stream.get(pos) {
+            None => return Err(CallError::EndOfInput),
+            Some(x) if x == t => pos += 1,
+            Some(_) => return Err(CallError::PrefixMismatch(k)),
+        }
+    }
+    let mut args = vec![];
+    let mut spans = vec![];
+    for d in &delims {
+        if d.is_empty() {
+            // undelimited: skip spaces, then one token or one group without its braces
+            while stream.get(pos) == Some(&Tok::Space) {
+                pos += 1;
+            }
+            match stream.get(pos) {
+                None => return Err(CallError::EndOfInput),
+                Some(Tok::End) => return Err(CallError::ExtraRightBrace),
+                Some(Tok::Begin) => {
+                    let e = group_end(stream, pos).ok_or(CallError::EndOfInput)?;
+                    let inner = &stream[pos + 1..e - 1];
+                    if inner.iter().any(is_par) {
+                        return Err(CallError::Par);
+                    }
+                    args.push(inner.to_vec());
+                    spans.push((pos, e));
+                    pos = e;
+                }
+                Some(t) => {
+                    if is_par(t) {
+                        return Err(CallError::Par);
+                    }
+                    args.push(vec![t.clone()]);
+                    spans.push((pos, pos + 1));
+                    pos += 1;
+                }
+            }
+        } else {
+            // delimited: walk over depth-0 items until the delimiter starts here
+            let start = pos;
+            loop {
+                if pos + d.len() <= stream.len() && stream[pos..pos + d.len()] == d[..] {
+                    break;
+                }
+                match stream.get(pos) {
+                    None => return Err(CallError::EndOfInput),
+                    Some(Tok::End) => return Err(CallError::ExtraRightBrace),
+                    Some(Tok::Begin) => {
+                        pos = group_end(stream, pos).ok_or(CallError::EndOfInput)?;
+                    }
+                    Some(_) => pos += 1,
+                }
+            }
+            let mut a = stream[start..pos].to_vec();
+            if a.iter().any(is_par) {
+                return Err(CallError::Par);
+            }
+            // one pair of outer braces is removed only when the whole argument is one group
+            if a.first() == Some(&Tok::Begin) && group_end(&a, 0) == Some(a.len()) {
+                a.pop();
+                a.remove(0);
+            }
+            args.push(a);
+            spans.push((start, pos));
+            pos += d.len();
+        }
+    }
+    let mut expansion = vec![];
+    for b in &def.body {
+        match b {
+            Body::Tok(t) => expansion.push(t.clone()),
+            Body::Out(n) => expansion.extend(args[*n - 1].iter().cloned()),
+        }
+    }
+    Ok((
+        Call {
+            args,
+            expansion,
+            consumed: pos,
+        },
+        spans,
+    ))
+}
+
+/// A very small interpreter used for calibration against the repository's unit-test tables:
+/// `\def` is executed, macros are expanded, every other token is delivered unchanged.
+/// (No grouping: definitions are global. `\def` inside a replacement text works because the
+/// stream is re-read after every expansion.)
+pub fn expand_all(src: &[Tok], max_steps: usize) -> Result<Vec<Tok>, String> {
+    let mut macros: HashMap<String, MacroDef> = HashMap::new();
+    let mut stream: Vec<Tok> = src.to_vec();
+    let mut out = vec![];
+    let mut steps = 0;
+    let mut i = 0usize;
+    while i < stream.len() {
+        steps += 1;
+        if steps > max_steps {
+            return Err("step budget".into());
+        }
+        let t = stream[i].clone();
+        i += 1;
+        match &t {
+            Tok::Cs(n) if n == "def" => {
+                let name = match stream.get(i) {
+                    Some(Tok::Cs(n)) => n.clone(),
+                    other => return Err(format!("\\def followed by {other:?}")),
+                };
+                i += 1;
+                let (d, used) = parse_def(&stream[i..]).map_err(|e| format!("{e:?}"))?;
+                i += used;
+                macros.insert(name, d);
+            }
+            Tok::Cs(n) if macros.contains_key(n) => {
+                let d = macros[n].clone();
+                let call = macro_call(&d, &stream[i..], TrimRule::Tex).map_err(|e| format!("{e:?}"))?;
+                let rest: Vec<Tok> = stream[i + call.consumed..].to_vec();
+                stream = call.expansion;
+                stream.extend(rest);
+                i = 0;
+            }
+            _ => out.push(t),
+        }
+    }
+    Ok(out)
+}
+
+#[cfg(test)]
+mod tests {
+    use super::*;
+
+    fn run(src: &str) -> String {
+        render(&expand_all(&lex_line(src), 10_000).unwrap())
+    }
+
+    #[test]
+    fn texbook_and_section_393() {
+        assert_eq!(run(r"\def\a#1.{[#1]}\a{x}{y}.|"), "[{x}{y}]|");
+        assert_eq!(run(r"\def\a#1.{[#1]}\a{x}.|"), "[x]|");
+        assert_eq!(run(r"\def\a#1.{[#1]}\a{{x}}.|"), "[{x}]|");
+        assert_eq!(run(r"\def\a#1.{[#1]}\a{x} .|"), "[{x} ]|");
+        assert_eq!(run(r"\def\a#1#2.{[#1|#2]}\a x {y}.|"), "[x| {y}]|");
+        assert_eq!(run(r"\def\a#1aab{[#1]}\a aaab|"), "[a]|");
+        assert_eq!(run(r"\def\a#1aab{[#1]}\a a{aab}aaaab|"), "[a{aab}aa]|");
+        assert_eq!(run(r"\def\a#1#{[#1]}\a xy{z}"), "[xy]{z}");
+        assert_eq!(run(r"\def\a#1{\def\b##1{##1#1}}\a!\b{Hello}"), "Hello!");
+        // TeXbook p.203
+        assert_eq!(
+            run(r"\def\cs AB#1#2C$#3\$ {#3{ab#1}#1 c##\x #2}\cs AB {\Look}C${And\$ }{look}\$ 5"),
+            r"{And\$  }{look}{ab\Look }\Look  c#\x 5"
+        );
+    }
+
+    #[test]
+    fn both_formulations_agree_on_examples() {
+        for (d, call) in [
+            ("#1.{[#1]}", "{x}{y}.|"),
+            ("#1ab{[#1]}", "aab|"),
+            ("ab#1#2\\x {#2#1}", "ab {p}q{\\x }\\x |"),
+            ("#1.#{<#1>}", "..{|}"),
+        ] {
+            let (def, _) = parse_def(&lex_line(d)).unwrap();
+            let s = lex_line(call);
+            assert_eq!(macro_call(&def, &s, TrimRule::Tex), declarative_call(&def, &s));
+        }
+    }
+}
